@@ -123,6 +123,26 @@ def rule_cb2(A: Analysis, rep):
                 if ok and not own:
                     ok = False
                     det = "`%s` is not created empty inside the worklist iteration that constructs the combine operation: all combine operations of one plan share (and keep appending to) one list" % lst
+    if not ok and dp is not None:
+        # the comprehension form (possibly "compute all pairs, then drop the None paths"), fused into one comprehension
+        from ..analysis import fuse_comprehensions
+        dpx = fuse_comprehensions(A.expand(dp, fi, stop=[F.lt]))
+        if isinstance(dpx, (ast.ListComp,)) and len(dpx.generators) == 1 and isinstance(dpx.generators[0].target, ast.Name) \
+                and norm(dpx.generators[0].iter) == "%s.task.deps" % F.lt and isinstance(dpx.elt, ast.Tuple) and len(dpx.elt.elts) == 2:
+            d = dpx.generators[0].target.id
+            src = norm(dpx.elt.elts[1])
+            cond = dpx.generators[0].ifs
+            test = cond[0] if len(cond) == 1 else (ast.BoolOp(op=ast.And(), values=list(cond)) if cond else None)
+            gs = A.dnf(test, True, None) if test is not None else []
+            ok = norm(dpx.elt.elts[0]) == d and src == "self._ctx.task_index.get_task(%s).get_output_path(self._ctx)" % d and \
+                gs == [frozenset({("none(%s)" % src, False)})]
+            # the list is built inside the worklist iteration that constructs the operation
+            if ok and isinstance(dp, ast.Name):
+                g = F.g
+                defs_ = [n for n in g.nodes if n.kind == "stmt" and isinstance(n.ast, (ast.Assign, ast.AnnAssign))
+                         and norm(n.ast.targets[0] if isinstance(n.ast, ast.Assign) else n.ast.target) == dp.id]
+                ok = bool(defs_) and F.w.header is not None and g.all_paths_pass(F.w.header, cn, defs_, skip_labels=lambda lb: is_exc(lb) or is_back(lb))
+            det = "pairs `%s` filtered by [%s]" % (norm(dpx.elt), " | ".join(fmt_conj(c) for c in gs))
     rep.check(ok, "CB2", "each dependency paired with its own selected output, in order, dropping only None", call,
               "(dep id, that dependency's get_output_path(ctx)) for every element of task.deps", det)
     kws = {k: norm(v) for k, v in A.kwmap(call).items()}
